@@ -232,6 +232,19 @@ pub fn check(stream: &[Ev], replay: &[Ev], own_steps_of: &dyn Fn(usize) -> usize
         for e in stream {
             block_on(w.handle_event(e.clone(), &cli::Empty));
         }
+        // the counters as a user of `Cucumber::repeat_failed()` reads them: through the wrapper
+        {
+            use cucumber::writer::Stats as _;
+            let through = [w.passed_steps(), w.skipped_steps(), w.failed_steps(), w.retried_steps(), w.parsing_errors(), w.hook_errors()];
+            let s = w.inner_writer();
+            let inner = [s.passed_steps(), s.skipped_steps(), s.failed_steps(), s.retried_steps(), s.parsing_errors(), s.hook_errors()];
+            if through != inner {
+                viol.push(v("stats-through-repeat", format!("[passed, skipped, failed, retried, parsing, hooks] read through the Repeat wrapper {through:?}, from the summarizing writer inside {inner:?}")));
+            }
+            if w.execution_has_failed() != s.execution_has_failed() {
+                viol.push(v("stats-through-repeat", format!("execution_has_failed() through the Repeat wrapper {}, inside {}", w.execution_has_failed(), s.execution_has_failed())));
+            }
+        }
         let s = w.inner_writer();
         (*s.steps_stats(), *s.scenarios_stats(), s.parsing_errors(), s.hook_errors(), s.execution_has_failed())
     } else {
